@@ -71,9 +71,16 @@ def one_document(text):
 
 
 def _one(args):
-    game, version, seed, ids, extra_args = args
-    out = {'version': '%s/%s' % (game, version), 'ids': ids, 'problems': [], 'corr': []}
-    b, exp, err = battlecheck.make_battle(game, version, seed, rich=True, ids=ids)
+    game, version, seed, ids, extra_args = args[:5]
+    floats = args[5] if len(args) > 5 else None
+    out = {'version': '%s/%s' % (game, version), 'ids': ids, 'problems': [], 'corr': [], 'floats': floats}
+    from ..gen import battle as gbattle
+    # non-finite floats are legal FLOAT32/FLOAT64/VECTOR values: fields the battle does not set itself carry them in some runs
+    gbattle.FLOAT_BITS = {'inf': (0x7f800000, 0x7ff0000000000000), '-inf': (0xff800000, 0xfff0000000000000), 'nan': (0x7fc00000, 0x7ff8000000000000)}.get(floats)
+    try:
+        b, exp, err = battlecheck.make_battle(game, version, seed, rich=True, ids=ids)
+    finally:
+        gbattle.FLOAT_BITS = None
     if b is None:
         out['problems'].append(('setup', err))
         return out
@@ -145,7 +152,7 @@ def run(chk, drv):
             while len(ids) < per:
                 ids.append(900000 + len(ids) + k)
             extra = ['--strict_mode'] if i % 3 == 1 else (['--log_level', 'DEBUG'] if i % 3 == 2 and i % 9 == 2 else [])
-            jobs.append((g, v, '%s-%d' % (chk.seed, r), ids, extra))
+            jobs.append((g, v, '%s-%d' % (chk.seed, r), ids, extra, [None, 'nan', 'inf', None, '-inf'][(i + r) % 5]))
     # the literals of the non-version modules are few: make sure each is used at least once even in the quick tier
     core_ids = [x for x in core if 0 < x < 2 ** 31]
     for j in range(0, len(core_ids), per):
@@ -162,7 +169,8 @@ def run(chk, drv):
             if kind == 'setup':
                 chk.notes.append('%s: %s' % (r['version'], what))
             else:
-                chk.report('%s with entity ids %s: %s' % (r['version'], r['ids'], what), {'kind': 'cli', 'version': r['version'], 'ids': r['ids'], 'what': what})
+                chk.report('%s with entity ids %s%s: %s' % (r['version'], r['ids'], (' and %s in unused float fields' % r['floats']) if r.get('floats') else '', what),
+                           {'kind': 'cli', 'version': r['version'], 'ids': r['ids'], 'floats': r.get('floats'), 'what': what})
         for c in r['corr']:
             chk.broken.append('correspondence json.encodable (%s): %s' % (r['version'], c))
         if r.get('model') and not r['corr']:
